@@ -125,7 +125,7 @@ fn build(ch: &mut Chooser, fmt: &str, s: &str) -> (Vec<u8>, String) {
             let book = ods::OBook { sheets: vec![ods::OSheet { name: "S".into(), display: None, rows: vec![
                 ods::ORow { cells: vec![(ods::OCell::new(ods::OVal::StrContent(SENTINEL.into(), ods::SpaceMode::TextS, false)), 1)], repeat: 1 },
                 ods::ORow { cells: vec![(ods::OCell::empty(), 1), ({ let mut c = ods::OCell::new(val); c.annotation = annotated; c }, 1)], repeat: 1 },
-            ] }], indent: ch.flag("ods.document-indented"), row_wrappers: ch.choose("ods.row-grouping-elements", 4) as u8, cell_attr_order: ch.choose("ods.cell-attribute-order", 3) as u8, ..Default::default() };
+            ] }], indent: ch.flag("ods.document-indented"), xml_comments: ch.flag("ods.xml-comments-inside-and-between-rows"), row_wrappers: ch.choose("ods.row-grouping-elements", 4) as u8, cell_attr_order: ch.choose("ods.cell-attribute-order", 3) as u8, ..Default::default() };
             (ods::write(&book, Method::Deflated), format!("ods storage={storage}{}", if annotated { " annotated" } else { "" }))
         }
     }
